@@ -107,3 +107,15 @@ Example c35_departures_nonvacuous :
   leftsx ops initx = [(2,20); (1,10); (3,10); (4,30)] /\ xlog (runx ops) = [(1,10); (3,10); (4,30)] /\
   xdropped (runx ops) = [(2,20)] /\ xq (runx ops) = [].
 Proof. vm_compute. repeat split; reflexivity. Qed.
+
+(* what stays queued after a pass ended by an exception on p0: the packets deferred because THEIR destination failed
+   transiently earlier in this pass, followed by the untouched rest; p0's own destination is not blocked and
+   has no deferred packet (every earlier packet to it was sent) *)
+Theorem exception_leaves_deferred_then_rest : forall q orc q' s p0,
+  servicex q orc = (q', s, Some p0) ->
+  exists pre post l1 ob,
+    q = pre ++ p0 :: post /\ q' = l1 ++ post /\ service pre ob = (l1, s) /\
+    (forall x, In x l1 -> memZ (dst x) (blocked_of pre ob) = true) /\
+    memZ (dst p0) (blocked_of pre ob) = false /\ to (dst p0) l1 = [].
+Proof. exact servicex_fatal_remaining. Qed.
+Print Assumptions exception_leaves_deferred_then_rest.
